@@ -288,6 +288,22 @@ def result_split(fn, local, max_hops=8):
                 names = {n: i for i, n in info["variants"].items()}
                 okv, errv = (names.get("Ok"), names.get("Err")) if info["adt"].endswith("Result") else (names.get("Some"), names.get("None"))
                 return {"switch_bb": sbb, "ok": fn.switch_target(sbb, okv), "err": fn.switch_target(sbb, errv), "mappers": mappers, "via": via + ["match"], "local": cur, "payload": info["place"]["l"]}
+        # the Result wrapped into an Option (`items.last().map(|x| f(x))` kept as an Option<Result<..>> and matched with
+        # nested patterns `Some(Ok(..)) / Some(Err(..)) / None`): the split is the switch on that field of the wrapper
+        for abb, ai, ast in fn.stmts():
+            rv = ast["rv"]
+            if rv["rv"] == "agg" and rv.get("agg") == "adt" and not ast["pl"]["p"] and any(operand_local(o) == cur and o.get("k") == "move" and not o["pl"]["p"] for o in rv["ops"]):
+                k = [operand_local(o) == cur for o in rv["ops"]].index(True)
+                for sbb, t in fn.switches():
+                    info = fn.switch_on(sbb)
+                    if info["kind"] != "discr" or info["place"]["l"] != ast["pl"]["l"] or info["adt"] not in ("std::result::Result", "std::option::Option"):
+                        continue
+                    pp = info["place"]["p"]
+                    if len(pp) == 2 and isinstance(pp[0], dict) and "dc" in pp[0] and pp[0]["dc"] in (None, rv.get("variant")) and isinstance(pp[1], dict) and pp[1].get("f") == k:
+                        names = {n: i for i, n in info["variants"].items()}
+                        okv, errv = (names.get("Ok"), names.get("Err")) if info["adt"].endswith("Result") else (names.get("Some"), names.get("None"))
+                        return {"switch_bb": sbb, "ok": fn.switch_target(sbb, okv), "err": fn.switch_target(sbb, errv), "mappers": mappers, "via": via + ["nested match"], "local": cur,
+                                "payload": info["place"]["l"]}
         nxt = None
         for bb, t in fn.live_calls(r"(Result::<T, E>|Option::<T>)::(map_err|map|or_else|inspect_err|ok_or_else|ok_or)$"):
             if operand_local(t["args"][0]) == cur:
